@@ -251,6 +251,7 @@ def verify(rep, prop, fn, spec, timeout=60000, B=2, backend='z3-qf(typed-instant
             if getattr(spec, 'value_quantified_hypotheses', False) and not o.replay.get('confirmed'):
                 # set membership facts quantify over VALUES, which the bounded refuter only expands over a small domain: its model is not a counterexample
                 o.status = core.UNKNOWN; o.detail = 'not proved; the bounded-scope model is not trusted (hypotheses quantify over set members) and no failing input was found natively'; o.replay = None
+        core.native_search_for_undischarged(o, fallback, counts, ob.label)
         out.append(o); rep.add(o)
     core.oracle_selfcheck(rep, fn, fallback, all(o.status == core.PROVED for o in out))
     return out
